@@ -87,12 +87,184 @@ static std::vector<int64_t> corruption_values(int32_t x)
     return { 0, 1, -1, (int64_t)x - 1, (int64_t)x + 1, (int64_t)x * 2, 0x7fffffff, (int64_t)(int32_t)0x80000000, 65536, 1 << 24 };
 }
 
+
+// ---------------------------------------------------------------- C10: untrusted text artefacts
+static const std::vector<std::string> C10_KINDS = { "jsgf_string", "jsgf_file", "fsg_file", "fsg_buf", "dict_file", "fdict_file", "json_string", "featparams_file", "align_text", "add_word", "cmn_text" };
+
+static std::string valid_artefact(Rng &r, const std::string &kind)
+{
+    const Lang &L = lang("en");
+    if (kind == "jsgf_string" || kind == "jsgf_file") {
+        if (r.chance(0.15)) {
+            std::string t;
+            if (vfs::pristine(repo_root() + (r.chance(0.5) ? "/tests/data/pizza.gram" : "/tests/data/goforward.gram"), t))
+                return t;
+        }
+        if (r.chance(0.1))
+            return "#JSGF V1.0;\ngrammar top;\nimport <sub.words>;\npublic <s> = go <words> | <sub.words>;\n";
+        return grammar::gen_jsgf(r, L.vocab).gets("text");
+    }
+    if (kind == "fsg_file" || kind == "fsg_buf")
+        return r.chance(0.2) ? grammar::fixed("goforward_fsg").gets("text") : grammar::gen_fsg(r, L.vocab).gets("text");
+    if (kind == "dict_file") {
+        // an excerpt of the small dictionary
+        std::string t;
+        size_t pos = 0;
+        int lines = (int)r.range(3, 40), n = 0;
+        size_t start = r.below(L.dict_text.size());
+        start = L.dict_text.find('\n', start);
+        pos = start == std::string::npos ? 0 : start + 1;
+        while (n < lines && pos < L.dict_text.size()) {
+            size_t e = L.dict_text.find('\n', pos);
+            if (e == std::string::npos)
+                break;
+            t += L.dict_text.substr(pos, e - pos + 1);
+            pos = e + 1;
+            n++;
+        }
+        return t;
+    }
+    if (kind == "fdict_file")
+        return "<s> SIL\n</s> SIL\n<sil> SIL\n[NOISE] +NSN+\n[SPEECH] +SPN+\n";
+    if (kind == "json_string" || kind == "featparams_file") {
+        static const std::vector<std::string> js = {
+            "{\"lowerf\": 130, \"upperf\": 3700, \"nfilt\": 20, \"transform\": \"dct\", \"lifter\": 22, \"feat\": \"1s_c_d_dd\", \"svspec\": \"0-12/13-25/26-38\", \"cmn\": \"current\", \"varnorm\": false, \"remove_noise\": true}",
+            "{\"samprate\": 16000, \"frate\": 100, \"wlen\": 0.025625, \"nfft\": 512, \"ncep\": 13, \"beam\": 1e-48, \"wbeam\": 7e-29, \"lw\": 6.5}",
+            "{\"loglevel\": \"ERROR\", \"cmninit\": \"40,3,-1\", \"fsgusefiller\": true, \"silprob\": 0.005, \"fillprob\": 1e-8, \"dictcase\": false}",
+            "hmm: /x/y\nbeam: 1e-30\nremove_dc: yes\n",
+            "{\"logbase\": 1.0001, \"topn\": 4, \"ds\": 1, \"aw\": 1, \"compallsen\": \"yes\", \"dither\": false, \"seed\": -1}" };
+        return r.pick(js);
+    }
+    if (kind == "align_text") {
+        std::string t;
+        int n = (int)r.range(1, 8);
+        for (int i = 0; i < n; ++i)
+            t += (i ? " " : "") + r.pick(L.vocab);
+        return t;
+    }
+    if (kind == "add_word") {
+        // "word\tphones"
+        std::string w = r.pick(L.vocab) + (r.chance(0.3) ? "(2)" : "x");
+        std::string ph;
+        int n = (int)r.range(1, 6);
+        for (int i = 0; i < n; ++i)
+            ph += (i ? " " : "") + r.pick(L.phones);
+        return w + "\t" + ph;
+    }
+    return "40,3,-1,0.5,0,0,0,0,0,0,0,0,0";
+}
+
+static std::string mutate_text(Rng &r, std::string t, const std::string &kind, std::map<std::string, int> *applied)
+{
+    static const std::vector<std::string> tokens = {
+        "<", ">", "(", ")", "[", "]", "*", "+", "|", ";", "=", "{", "}", "/", "\"", "\\", "#JSGF V1.0;", "grammar ", "public ", "import <a.b>;", "<NULL>", "<VOID>", "/1e308/", "/-1/", "/0/",
+        "FSG_BEGIN", "FSG_END", "NUM_STATES 99999999", "NUM_STATES -1", "NUM_STATES 0", "START_STATE 7777", "FINAL_STATE -3", "TRANSITION -1 2 1.0 go", "TRANSITION 0 99999 0.5", "TRANSITION 0 1 1e308 go",
+        "TRANSITION 0 1 -5 go", "TRANSITION 0 1 nan go", "TRANSITION 0 1 0 go", "(2)", "(99999999999)", "()", "SIL", "+NSN+", "ZZ", ":", ",", "true", "null", "1e308", "-0", "99999999999999999999", "\n", "\r\n", "\t", " ",
+        "\xff\xfe", "\xc3", "\xe2\x82", "\x01", "\x7f", "%s%n", "<s>", "</s>", "<sil>", "go", "{\"a\":{\"b\":", "]]]]", "\\u0000", "\\u12", "##", ";;"
+    };
+    int k = (int)r.weighted({ 10, 45, 25, 12, 8 });
+    auto note = [&](const char *m) {
+        if (applied)
+            (*applied)[m]++;
+    };
+    for (int i = 0; i < k; ++i) {
+        size_t n = t.size();
+        switch (r.weighted({ 14, 10, 10, 8, 8, 18, 6, 5, 4, 5, 4, 8 })) {
+        case 0: // truncate
+            if (n) { t.resize(r.below(n)); note("text.truncate"); }
+            break;
+        case 1: // flip bit
+            if (n) { size_t o = r.below(n); t[o] = (char)(t[o] ^ (1 << r.below(8))); note("text.flip_bit"); }
+            break;
+        case 2: // set byte
+            if (n) {
+                static const std::vector<int> bytes = { 0, 1, 9, 10, 13, 27, 32, 34, 92, 127, 128, 192, 255 };
+                t[r.below(n)] = (char)r.pick(bytes);
+                note("text.set_byte");
+            }
+            break;
+        case 3: // delete block
+            if (n) { size_t o = r.below(n); t.erase(o, (size_t)r.range(1, 20)); note("text.del_block"); }
+            break;
+        case 4: // duplicate block
+            if (n) { size_t o = r.below(n); std::string b = t.substr(o, (size_t)r.range(1, 40)); t.insert(o, b); note("text.dup_block"); }
+            break;
+        case 5: // insert token
+            t.insert(n ? r.below(n + 1) : 0, r.pick(tokens));
+            note("text.insert_token");
+            break;
+        case 6: { // over-long token
+            size_t len = (size_t)r.pick(std::vector<int> { 300, 1023, 1024, 1025, 4096, 70000 });
+            t.insert(n ? r.below(n + 1) : 0, std::string(len, (char)('a' + r.below(26))));
+            note("text.long_token");
+            break;
+        }
+        case 7: { // deep nesting
+            size_t depth = (size_t)r.pick(std::vector<int> { 50, 500, 5000 });
+            std::string open = r.chance(0.5) ? "(" : "[", close = open == "(" ? ")" : "]";
+            if (kind.find("json") != std::string::npos || kind == "featparams_file") {
+                open = r.chance(0.5) ? "[" : "{\"a\":";
+                close = open == "[" ? "]" : "}";
+            }
+            std::string s;
+            for (size_t d = 0; d < depth; ++d)
+                s += open;
+            s += " go ";
+            if (r.chance(0.7))
+                for (size_t d = 0; d < depth; ++d)
+                    s += close;
+            t.insert(n ? r.below(n + 1) : 0, s);
+            note("text.deep_nesting");
+            break;
+        }
+        case 8: { // numeric field -> edge value
+            size_t o = n ? r.below(n) : 0;
+            size_t d = t.find_first_of("0123456789", o);
+            if (d != std::string::npos) {
+                size_t e = t.find_first_not_of("0123456789.eE-+", d);
+                static const std::vector<std::string> vals = { "0", "-1", "1e308", "99999999999", "2147483648", "-2147483649", "nan", "inf", "1e-400", "0x7fffffff", "" };
+                t.replace(d, (e == std::string::npos ? n : e) - d, r.pick(vals));
+                note("text.numeric_edge");
+            }
+            break;
+        }
+        case 9: // drop the terminator / last line
+            if (n > 2) {
+                size_t e = t.rfind('\n', n - 2);
+                if (e != std::string::npos) { t.resize(e + (r.chance(0.5) ? 1 : 0)); note("text.drop_last_line"); }
+            }
+            break;
+        case 10: { // splice with another artefact
+            std::string other = valid_artefact(r, r.pick(C10_KINDS));
+            size_t a = n ? r.below(n) : 0, b = other.size() ? r.below(other.size()) : 0;
+            t = t.substr(0, a) + other.substr(b);
+            note("text.splice");
+            break;
+        }
+        default: { // unstructured bytes
+            size_t len = (size_t)r.range(1, 64);
+            std::string s;
+            for (size_t q = 0; q < len; ++q)
+                s += (char)r.below(256);
+            if (r.chance(0.3))
+                t = s;
+            else
+                t.insert(n ? r.below(n + 1) : 0, s);
+            note("text.random_bytes");
+        }
+        }
+        if (t.size() > 300000)
+            t.resize(300000);
+    }
+    return t;
+}
+
 struct LoadWorld : World {
     const char *name() const override { return "load"; }
-    std::vector<std::string> properties() const override { return { "C17" }; }
+    std::vector<std::string> properties() const override { return { "C17", "C10" }; }
     std::string level(const std::string &) const override { return "fault_enumeration"; }
-    int64_t default_runs(const std::string &, int tier) const override { return tier ? 30000 : 700; }
-    int watchdog_s(const std::string &) const override { return 120; }
+    int64_t default_runs(const std::string &p, int tier) const override { return p == "C10" ? (tier ? 300000 : 5000) : (tier ? 30000 : 700); }
+    int watchdog_s(const std::string &p) const override { return p == "C10" ? 25 : 120; }
 
     // ---- enumeration (thorough tier walks it completely before seeded sampling starts)
     std::vector<Json> enumerated;
@@ -168,12 +340,23 @@ struct LoadWorld : World {
             }
     }
 
-    void setup(const std::string &, int) override
+    decoder_t *c10_dec = nullptr;
+    void setup(const std::string &prop, int) override
     {
         vfs::activate(true);
         audio::load_corpus();
         build_languages();
         err_set_loglevel(ERR_ERROR);
+        if (prop == "C10") {
+            c10_dec = make_decoder("en");
+            if (!c10_dec) {
+                fprintf(stderr, "HARNESS-FAULT: template decoder failed to initialise\n");
+                exit(2);
+            }
+            vfs::preload(repo_root() + "/tests/data/pizza.gram");
+            vfs::preload(repo_root() + "/tests/data/goforward.gram");
+            return;
+        }
         for (const std::string m : { "en", "fr" })
             for (auto &f : MODEL_FILES)
                 vfs::preload(file_path(m, f));
@@ -232,8 +415,16 @@ struct LoadWorld : World {
         return true;
     }
 
-    std::string rule(const std::string &) const override
+    std::string rule(const std::string &p) const override
     {
+        if (p == "C10")
+            return "one run = a forked copy of a worker holding one initialised decoder; 1-6 parse operations, each a valid artefact (generated JSGF/FSG, dictionary excerpt, filler "
+                   "dictionary, JSON / key-value configuration, alignment text, word+pronunciation, CMN text) damaged by 0-4 structured mutations (truncation, bit flip, control/non-UTF-8 "
+                   "byte, block delete/duplicate, syntax-token insertion, over-long token, deep nesting, numeric edge value, dropped terminator, splice of two artefacts, random bytes) "
+                   "and handed to the library either as a STORED file through the simulated file layer (mmio image or fopen stream, optionally with a short read or EIO at byte k) or as "
+                   "an in-memory string; whatever is returned is used (grammar activated and 0.3 s decoded, configuration used for fe/feat init, dictionary looked up) and freed. "
+                   "Oracle: terminates within the watchdog, no memory error/assert/exit, failure only through the return value. Non-trivial: at least one mutation or I/O fault was "
+                   "applied and at least one parse call returned; distinct = distinct plan digest";
         return "one run = a forked copy of a worker holding pristine images of every acoustic-model file of both bundled models in the simulated file store; faults attached to the "
                "files of one model (missing file, truncation at byte k, int32 header field := corrupted value, bit flip, zero/duplicate block, appended garbage, swapped byte-order "
                "marker), then decoder_init (or decoder_create + decoder_reinit, or the in-memory *_s3file entry points the JavaScript binding uses), use of whatever was returned "
@@ -320,8 +511,52 @@ struct LoadWorld : World {
     }
 
     Json generate(const std::string &p, uint64_t seed, int tier) override { return generate_indexed(p, seed, tier, -1); }
-    Json generate_indexed(const std::string &, uint64_t seed, int tier, int64_t index) override
+    Json generate_c10(uint64_t seed)
     {
+        Rng r(seed);
+        Json p = Json::object();
+        p.set("world", "load");
+        p.set("profile", "C10");
+        Json ops = Json::array();
+        int n = (int)r.range(1, 6);
+        // swarm: a run concentrates on a subset of artefact kinds
+        std::vector<std::string> kinds;
+        for (auto &k : C10_KINDS)
+            if (r.chance(0.4))
+                kinds.push_back(k);
+        if (kinds.empty())
+            kinds.push_back(r.pick(C10_KINDS));
+        for (int i = 0; i < n; ++i) {
+            std::string kind = r.pick(kinds);
+            Json op = Json::object();
+            op.set("op", "parse");
+            op.set("kind", kind);
+            std::string t = valid_artefact(r, kind);
+            t = mutate_text(r, t, kind, nullptr);
+            op.set("text", t);
+            bool file = kind.find("_file") != std::string::npos;
+            if (file && r.chance(0.2)) {
+                Json io = Json::object();
+                io.set(r.chance(0.5) ? "short_read" : "eio", (long long)(t.size() ? r.below(t.size() + 1) : 0));
+                op.set("io", io);
+            }
+            if (kind == "jsgf_file" && r.chance(0.5)) {
+                // an import target next to the grammar, itself possibly damaged
+                std::string imp = "#JSGF V1.0;\ngrammar sub;\npublic <words> = ten | meters | <more>;\n<more> = forward;\n";
+                if (r.chance(0.5))
+                    imp = mutate_text(r, imp, "jsgf_file", nullptr);
+                op.set("import", imp);
+            }
+            ops.push(op);
+        }
+        p.set("ops", ops);
+        return p;
+    }
+
+    Json generate_indexed(const std::string &prop, uint64_t seed, int tier, int64_t index) override
+    {
+        if (prop == "C10")
+            return generate_c10(seed);
         if (tier && index >= 0 && index < (int64_t)enumerated.size())
             return enumerated[(size_t)index];
         Rng r(seed);
@@ -434,8 +669,176 @@ struct LoadWorld : World {
         return d;
     }
 
+    // activate a grammar the library returned, decode 0.3 s with it
+    void use_grammar(decoder_t *d, Outcome &out)
+    {
+        const auto &clip = audio::recording("goforward");
+        size_t n = std::min<size_t>(clip.size(), 4800);
+        if (decoder_start_utt(d) < 0)
+            return;
+        int16_t *heap = (int16_t *)malloc(sizeof(int16_t) * n);
+        memcpy(heap, clip.data(), sizeof(int16_t) * n);
+        decoder_process_int16(d, heap, n, 0, 0);
+        free(heap);
+        decoder_end_utt(d);
+        Rec r = capture(d);
+        out.events.str(r.to_json(false).dump());
+        out.probes["c10.returned_grammar_used"]++;
+    }
+
+    void execute_c10(const Json &plan, const Ctx &ctx)
+    {
+        Outcome &out = *ctx.out;
+        decoder_t *d = c10_dec;
+        const auto &ops = plan["ops"].a;
+        int returned = 0, damaged = 0;
+        for (size_t k = 0; k < ops.size(); ++k) {
+            const Json &op = ops[k];
+            ctx.at((int)k);
+            std::string kind = op.gets("kind");
+            const std::string &text = op.gets("text");
+            out.trace.str(kind);
+            ctx.set_note(kind);
+            vfs::clear_faults();
+            damaged++;
+            std::string path = "/vfs/c10/artefact";
+            if (kind == "jsgf_file")
+                path = "/vfs/c10/top.gram";
+            bool file = kind.find("_file") != std::string::npos;
+            if (file) {
+                vfs::set_image(path, text);
+                if (op.has("import"))
+                    vfs::set_image("/vfs/c10/sub.gram", op["import"].s);
+                else
+                    vfs::remove_image("/vfs/c10/sub.gram");
+                if (op.has("io")) {
+                    vfs::Fault f;
+                    f.target = path;
+                    f.kind = op["io"].has("eio") ? "eio" : "short_read";
+                    f.off = op["io"].geti(f.kind);
+                    vfs::add_fault(f);
+                }
+            }
+            int rv = -99;
+            if (kind == "jsgf_string") {
+                rv = decoder_set_jsgf_string(d, text.c_str());
+                if (rv == 0)
+                    use_grammar(d, out);
+            } else if (kind == "jsgf_file") {
+                rv = decoder_set_jsgf_file(d, path.c_str());
+                if (rv == 0)
+                    use_grammar(d, out);
+            } else if (kind == "fsg_file") {
+                fsg_model_t *fsg = fsg_model_readfile(path.c_str(), d->lmath, 6.5f);
+                rv = fsg ? 0 : -1;
+                if (fsg) {
+                    if (decoder_set_fsg(d, fsg) == 0) // consumes fsg either way
+                        use_grammar(d, out);
+                    else
+                        rv = -2;
+                }
+            } else if (kind == "fsg_buf") {
+                char *buf = (char *)malloc(text.size() ? text.size() : 1);
+                memcpy(buf, text.data(), text.size());
+                s3file_t *f = s3file_init(buf, text.size());
+                fsg_model_t *fsg = fsg_model_read_s3file(f, d->lmath, 6.5f);
+                s3file_free(f);
+                free(buf);
+                rv = fsg ? 0 : -1;
+                if (fsg) {
+                    if (r_chance_use(k))
+                        fsg_model_free(fsg); // returned object freed unused
+                    else if (decoder_set_fsg(d, fsg) == 0)
+                        use_grammar(d, out);
+                    else
+                        rv = -2;
+                }
+            } else if (kind == "dict_file" || kind == "fdict_file") {
+                config_t *c = config_init(NULL);
+                config_set_str(c, kind == "dict_file" ? "dict" : "fdict", path.c_str());
+                if (kind == "fdict_file")
+                    config_set_str(c, "dict", lang("en").dict_path.c_str());
+                dict_t *dd = dict_init(c, d->acmod->mdef);
+                rv = dd ? 0 : -1;
+                if (dd) {
+                    for (const char *w : { "go", "<sil>", "forward(2)", "", "zzz" })
+                        out.events.i64(dict_wordid(dd, w));
+                    for (int32 w = 0; w < dict_size(dd) && w < 50; ++w) {
+                        out.events.i64(dict_pronlen(dd, w));
+                        out.events.i64(dict_basewid(dd, w));
+                        out.events.i64(dict_filler_word(dd, w));
+                    }
+                    dict_free(dd);
+                    out.probes["c10.returned_dict_used"]++;
+                }
+                config_free(c);
+            } else if (kind == "json_string" || kind == "featparams_file") {
+                config_t *c = nullptr;
+                if (kind == "json_string")
+                    c = config_parse_json(NULL, text.c_str());
+                else {
+                    c = config_init(NULL);
+                    config_set_str(c, "featparams", path.c_str());
+                    config_expand(c);
+                }
+                rv = c ? 0 : -1;
+                if (c) {
+                    // use it: serialise, then build the front end and feature module from it
+                    const char *js = config_serialize_json(c);
+                    out.events.i64(js ? (int64_t)strlen(js) : -1);
+                    fe_t *fe = fe_init(c);
+                    feat_t *fcb = feat_init(c);
+                    out.events.i64(fe != nullptr);
+                    out.events.i64(fcb != nullptr);
+                    fe_free(fe);
+                    feat_free(fcb);
+                    config_free(c);
+                    out.probes["c10.returned_config_used"]++;
+                }
+            } else if (kind == "align_text") {
+                rv = decoder_set_align_text(d, text.c_str());
+                if (rv == 0)
+                    use_grammar(d, out);
+            } else if (kind == "add_word") {
+                size_t tab = text.find('\t');
+                std::string w = text.substr(0, tab), ph = tab == std::string::npos ? "" : text.substr(tab + 1);
+                rv = decoder_add_word(d, w.c_str(), ph.c_str(), (int)(k & 1));
+                char *p2 = decoder_lookup_word(d, w.c_str());
+                out.events.str(p2 ? p2 : "(null)");
+                ckd_free(p2);
+            } else if (kind == "cmn_text") {
+                rv = decoder_set_cmn(d, text.c_str());
+                const char *c = decoder_get_cmn(d, 0);
+                out.events.str(c ? c : "(null)");
+            }
+            out.checks++;
+            out.events.i64(rv);
+            out.trace.i64(rv >= 0);
+            out.probes[rv >= 0 ? "c10.accepted." + kind : "c10.refused." + kind]++;
+            returned++;
+            for (auto &kv : vfs::fired())
+                out.faults[kv.first] += kv.second;
+            vfs::fired().clear();
+            out.faults["artefact." + kind]++;
+        }
+        ctx.at((int)ops.size());
+        vfs::clear_faults();
+        // the decoder must still be usable and freeable after all that
+        decoder_set_align_text(d, "go forward ten meters");
+        use_grammar(d, out);
+        decoder_free(d);
+        c10_dec = nullptr;
+        out.nontrivial = returned > 0 && damaged > 0;
+        out.sim_seconds = 0.3 * (double)(out.probes["c10.returned_grammar_used"]);
+    }
+    static bool r_chance_use(size_t k) { return (k % 3) == 2; }
+
     void execute(const Json &plan, const Ctx &ctx) override
     {
+        if (plan.gets("profile") == "C10") {
+            execute_c10(plan, ctx);
+            return;
+        }
         Outcome &out = *ctx.out;
         std::string model = plan.gets("model", "en");
         std::string via = plan.gets("via", "init");
@@ -531,6 +934,8 @@ struct LoadWorld : World {
     // class trigger: "<file>/<fault kind>" of the single fault, or of the file being opened when several are attached
     std::string crash_trigger(const Json &plan, int op, const std::string &note) const override
     {
+        if (plan.gets("profile") == "C10")
+            return note.empty() ? "-" : note;
         (void)op;
         std::vector<const Json *> faults;
         for (auto &o : plan["ops"].a)
@@ -548,6 +953,49 @@ struct LoadWorld : World {
     {
         std::vector<Json> c;
         const auto &ops = plan["ops"].a;
+        if (plan.gets("profile") == "C10") {
+            // shorten the artefact text: halves, then chunks
+            for (size_t n = 0; n < ops.size(); ++n) {
+                const std::string &t = ops[n].gets("text");
+                auto with_text = [&](const std::string &nt) {
+                    Json p = plan;
+                    Json a = Json::array();
+                    for (size_t m = 0; m < ops.size(); ++m) {
+                        Json o = ops[m];
+                        if (m == n)
+                            o.set("text", nt);
+                        a.push(o);
+                    }
+                    p.set("ops", a);
+                    return p;
+                };
+                if (t.size() > 1) {
+                    c.push_back(with_text(t.substr(0, t.size() / 2)));
+                    c.push_back(with_text(t.substr(t.size() / 2)));
+                    size_t q = t.size() / 4;
+                    if (q > 0) {
+                        c.push_back(with_text(t.substr(0, q) + t.substr(2 * q)));
+                        c.push_back(with_text(t.substr(0, 2 * q) + t.substr(3 * q)));
+                        c.push_back(with_text(t.substr(0, t.size() - 1)));
+                    }
+                }
+                if (ops[n].has("io") || ops[n].has("import")) {
+                    Json p = plan;
+                    Json a = Json::array();
+                    for (size_t m = 0; m < ops.size(); ++m) {
+                        Json o = ops[m];
+                        if (m == n) {
+                            o.erase("io");
+                            o.erase("import");
+                        }
+                        a.push(o);
+                    }
+                    p.set("ops", a);
+                    c.push_back(p);
+                }
+            }
+            return c;
+        }
         if (plan.gets("via") != "init") {
             Json p = plan;
             p.set("via", "init");
